@@ -11,11 +11,16 @@
    C16_bail_before_write_no_effect   ... and if the prefix contains no write it has no effect on the store.
    C16_guard_traces_well_locked the data trace derived from a lock trace (every guard read, write guards written) is
                                 well-locked — the modelling assumption "data is only touched through the guard" made explicit.
+   UNIVERSAL part: C16_serializable_footprint_classes — for EVERY world (no invariant needed) and any number of concurrent calls of the
+   one-section classes (two_phase_class = true: parent / element_name / element_type / character_data / attribute_value / comment /
+   iterator steps, remove_attribute / set_comment / insert+remove_character_content_item, get_element_by_path / get_references_to /
+   root_element, ArxmlFile::version / filename / xml_standalone / model, item_name, is_identifiable) whose lock trace is the footprint
+   FUNCTION of Conc/Footprint.v (tied to the implementation event by event on every run), every complete interleaving is serial.
    [P]artial tie: two_phase is evaluated by vm_compute on the traces produced by the implementation through hook H2; operation
    classes whose traces are not two-phase are NOT claimed serializable (most multi-step operations: see the check's evidence);
    concrete non-serializable interleavings found by the scheduler are recorded findings. *)
 From Coq Require Import List NArith Bool Arith Permutation.
-From AV Require Import Conc.RwLock Conc.TwoPhase Conc.Eval Conc.EvalProofs.
+From AV Require Import Tree.Heap Conc.RwLock Conc.TwoPhase Conc.Eval Conc.EvalProofs Conc.Footprint Conc.FootprintProofs.
 Import ListNotations.
 
 Theorem C16_two_phase_serializable : forall (ts : list (list dev)) (st0 : store),
@@ -39,3 +44,13 @@ Proof. exact bail_before_write_no_effect. Qed.
 
 Theorem C16_guard_traces_well_locked : forall t, well_locked (to_dev t) = true.
 Proof. exact to_dev_well_locked. Qed.
+
+Theorem C16_serializable_footprint_classes : forall cf fuel w (os : list lop) (st0 : store),
+    Forall (fun o => two_phase_class o = true) os ->
+    forall c, dreachable (dinit (map (fun o => to_dev (lock_trace cf fuel o w)) os) st0) c -> d_all_finished c ->
+    exists order : list nat,
+      Permutation order (seq 0 (length os)) /\
+      (forall l, cstore c l = fst (serial (map (fun o => to_dev (lock_trace cf fuel o w)) os) order st0) l) /\
+      (forall t th, nth_error (cthreads c) t = Some th ->
+                    In (t, dlog th) (snd (serial (map (fun o => to_dev (lock_trace cf fuel o w)) os) order st0))).
+Proof. exact serializable_footprint_classes. Qed.
